@@ -1,77 +1,91 @@
-(* C11: viscoelastic models dissipate, relax and keep the viscous flow isochoric.
-   Subjects: the kernels regenerated from /repo (Gen_HyperViscoelastic, Gen_MultiBranchHyperViscoelastic, Gen_ViscoState,
-   Gen_TensorMath) at T := R, composed as in the material factories (model/M_C11.v, model/M_C08.v).
-   Method: bridge lemmas (unfold + field) express every composite kernel through the trial strain E = Etrial lss H Fv; the
-   property clauses are then algebra in E, dt, tau, G. *)
+(* C11: theorems (single branch, three branches, limits); bridges and algebra are in L_C11a.v *)
 From Coq Require Import Reals Lra QArith List.
 From OV.base Require Import Num.
 From OV.gen Require Import Gen_TensorMath Gen_HyperViscoelastic Gen_MultiBranchHyperViscoelastic Gen_ViscoState.
 From OV.model Require Import M_C08 M_C11.
-From OV.proofs Require Import L_C08.
+From OV.proofs Require Import L_C08 L_C11a.
 Import ListNotations.
 Local Open Scope R_scope.
 
-Ltac cnum := cbv beta iota zeta delta [
-   E_hv E_hv_eq E_mb E_mb_eq mb_branch
-   Etrial nds mdiv inc_hv Wneq_hv Psi_hv D_hv state_new_hv relax_hv Wneq_reported_hv
-   inc_b Wneq_b Psi_b Etrial_mb D_mb_branch D_mb state_new_b relax_b Wneq_reported_b
-   t_trace I2 t_det detpIm1 deviator dev sym skw norm_of_deviator_squared
-   _eq_strain_energy _neq_strain_energy _dissipation_potential _compute_state_increment _compute_elastic_logarithmic_strain
-   hv_energy_density hv_dissipated_energy mb_eq_strain_energy mb_compute_elastic_logarithmic_strain
-   c11_state_increment c11_elastic_log_strain c11_state_new
-   _neq_strain_energy_b1 _dissipation_potential_b1 _compute_state_increment_b1
-   _neq_strain_energy_b2 _dissipation_potential_b2 _compute_state_increment_b2
-   _neq_strain_energy_b3 _dissipation_potential_b3 _compute_state_increment_b3
-   defgrad madd msub map2 mscal mmul mtr mtrace mddot mdet mid mzero ap9 of9 to9 lift1 lift2
-   m00 m01 m02 m10 m11 m12 m20 m21 m22
-   nconst nadd nsub nmul ndiv nopp nabs nsqrt nexp nln nltb nleb neqb NumR nZ nzero nunit ntwo nhalf ngtb ngeb nneb nmin nmax nsign nsq npow npowr
-   Q2R' Qnum Qden inject_Z].
-Ltac dp4 p := destruct p as [[[?K ?G ?Gn ?tau]]].
+(* ---- single branch: closed forms *)
+Section Single.
+  Variables (lss expm : M -> M) (K G Gn tau : R).
+  Let p : p4 := (K, G, Gn, tau).
+  Hypothesis Htau : 0 < tau.
 
-(* the integration factor 1/(1+dt/tau) *)
-Definition fac (dt tau : R) : R := 1 / (1 + dt / tau).
-Lemma fac_pos dt tau : 0 < dt -> 0 < tau -> 0 < fac dt tau < 1.
-Proof.
-  intros Hd Ht. unfold fac. assert (0 < dt / tau) by (apply Rdiv_lt_0_compat; lra). split.
-  - apply Rdiv_lt_0_compat; lra.
-  - apply (Rmult_lt_reg_r (1 + dt / tau)); [lra |]. unfold Rdiv at 1. rewrite Rmult_assoc, Rinv_l by lra. lra.
-Qed.
-Lemma den_ne dt tau : 0 < dt -> 0 < tau -> 1 + dt / tau <> 0.
-Proof. intros Hd Ht. assert (0 < dt / tau) by (apply Rdiv_lt_0_compat; lra). lra. Qed.
+  Lemma E_hv_closed (Fv : M) dt (H : M) : 0 < dt ->
+    E_hv lss p Fv dt H = E_hv_eq p H + Gn * nds (Etrial lss H Fv) * fac dt tau.
+  Proof.
+    intros Hd. unfold p. rewrite E_hv_bridge, Wneq_hv_form, Psi_hv_form, relax_nds, rate_nds by assumption.
+    pose proof (den_ne dt tau Hd Htau). unfold fac. field. split; lra.
+  Qed.
 
-(* ---- algebra in the trial strain *)
-Lemma nds_nonneg (E : M) : 0 <= nds E.
-Proof. dm E. cnum. repeat apply Rplus_le_le_0_compat; apply Rle_0_sqr. Qed.
+  Lemma D_hv_closed (Fv : M) dt (H : M) : 0 < dt ->
+    D_hv lss p Fv dt H = Gn * nds (Etrial lss H Fv) * (dt / tau) * (fac dt tau * fac dt tau).
+  Proof.
+    intros Hd. unfold p. rewrite D_hv_bridge, Psi_hv_form, rate_nds by assumption. field. lra.
+  Qed.
 
-Lemma inc_trace K G Gn tau dt (E : M) : 0 < dt -> 0 < tau -> mtrace (inc_hv (K, G, Gn, tau) dt E) = 0.
-Proof. intros Hd Ht. pose proof (den_ne dt tau Hd Ht). dm E. cnum. field. split; lra. Qed.
+  (* dissipated energy is non-negative *)
+  Lemma D_hv_nonneg (Fv : M) dt (H : M) : 0 < dt -> 0 <= Gn -> 0 <= D_hv lss p Fv dt H.
+  Proof.
+    intros Hd HG. rewrite D_hv_closed by exact Hd. pose proof (nds_nonneg (Etrial lss H Fv)).
+    destruct (fac_pos dt tau Hd Htau) as [Hf _]. assert (Hr : 0 < dt / tau) by (apply Rdiv_lt_0_compat; lra).
+    assert (H1 : 0 <= Gn * nds (Etrial lss H Fv)) by (apply Rmult_le_pos; lra).
+    assert (H2 : 0 <= fac dt tau * fac dt tau) by (apply Rmult_le_pos; lra).
+    apply Rmult_le_pos; [apply Rmult_le_pos; [exact H1 | lra] | exact H2].
+  Qed.
 
-Lemma relax_nds K G Gn tau dt (E : M) : 0 < dt -> 0 < tau ->
-  nds (relax_hv (K, G, Gn, tau) dt E) = fac dt tau * fac dt tau * nds E.
-Proof. intros Hd Ht. pose proof (den_ne dt tau Hd Ht). dm E. unfold fac. cnum. field. split; lra. Qed.
+  (* the viscous flow is isochoric, for every matrix exponential with det(exp A) = exp(tr A) *)
+  Hypothesis Hexp : forall A : M, mdet (expm A) = exp (mtrace A).
+  Lemma state_new_hv_det (Fv : M) dt (H : M) : 0 < dt -> mdet (state_new_hv lss expm p Fv dt H) = mdet Fv.
+  Proof.
+    intros Hd. unfold p. rewrite state_new_hv_bridge, mdet_mmul, Hexp, inc_trace by assumption. rewrite exp_0. ring.
+  Qed.
 
-Lemma rate_nds K G Gn tau dt (E : M) : 0 < dt -> 0 < tau ->
-  nds (mdiv (inc_hv (K, G, Gn, tau) dt E) dt) = (fac dt tau / tau) * (fac dt tau / tau) * nds E.
-Proof. intros Hd Ht. pose proof (den_ne dt tau Hd Ht). dm E. unfold fac. cnum. field. repeat split; lra. Qed.
+  (* relaxation at held deformation: one more step multiplies the stored non-equilibrium energy by fac^2 < 1.
+     Hcoax: the trial strain of the updated state is the relaxed strain -- exact for the true matrix logarithm and
+     exponential because the increment is coaxial with the trial strain (it is a multiple of its deviator). *)
+  Variable H : M.
+  Hypothesis Hcoax : forall (Fv : M) dt, 0 < dt ->
+    Etrial lss H (state_new_hv lss expm p Fv dt H) = relax_hv p dt (Etrial lss H Fv).
 
-Lemma Wneq_hv_form K G Gn tau (E : M) : Wneq_hv (K, G, Gn, tau) E = Gn * nds E.
-Proof. dm E. cnum. reflexivity. Qed.
-Lemma Psi_hv_form K G Gn tau (E : M) : Psi_hv (K, G, Gn, tau) E = Gn * tau * nds E.
-Proof. dm E. cnum. reflexivity. Qed.
+  Lemma Wneq_reported_form (Fv : M) dt : 0 < dt ->
+    Wneq_reported_hv lss p Fv dt H = Gn * (fac dt tau * fac dt tau * nds (Etrial lss H Fv)).
+  Proof. intros Hd. unfold Wneq_reported_hv, p. now rewrite Wneq_hv_form, relax_nds. Qed.
 
-(* ---- bridges: the composite kernels expressed through the trial strain *)
-Ltac kill_lss lss := repeat match goal with |- context [lss ?X] => let x := fresh "L" in destruct (lss X) eqn:x; clear x end.
+  Lemma relaxation_step (Fv : M) dt dt' : 0 < dt -> 0 < dt' -> 0 <= Gn ->
+    Wneq_reported_hv lss p (state_new_hv lss expm p Fv dt H) dt' H
+    = fac dt' tau * fac dt' tau * Wneq_reported_hv lss p Fv dt H
+    /\ Wneq_reported_hv lss p (state_new_hv lss expm p Fv dt H) dt' H <= Wneq_reported_hv lss p Fv dt H.
+  Proof.
+    intros Hd Hd' HG. rewrite !Wneq_reported_form by assumption. rewrite Hcoax by assumption. unfold p. rewrite relax_nds by assumption.
+    split; [ring |]. destruct (fac_pos dt tau Hd Htau) as [F0 F1]. destruct (fac_pos dt' tau Hd' Htau) as [F0' F1'].
+    pose proof (nds_nonneg (Etrial lss H Fv)) as Hn.
+    assert (Hx : 0 <= Gn * (fac dt tau * fac dt tau * nds (Etrial lss H Fv))).
+    { apply Rmult_le_pos; [lra |]. apply Rmult_le_pos; [apply Rmult_le_pos; lra | lra]. }
+    assert (Hff : fac dt' tau * fac dt' tau <= 1) by nra.
+    replace (Gn * (fac dt' tau * fac dt' tau * (fac dt tau * fac dt tau * nds (Etrial lss H Fv))))
+      with (fac dt' tau * fac dt' tau * (Gn * (fac dt tau * fac dt tau * nds (Etrial lss H Fv)))) by ring.
+    nra.
+  Qed.
 
-Lemma E_hv_bridge lss K G Gn tau (Fv : M) dt (H : M) :
-  E_hv lss (K, G, Gn, tau) Fv dt H
-  = E_hv_eq (K, G, Gn, tau) H + Wneq_hv (K, G, Gn, tau) (relax_hv (K, G, Gn, tau) dt (Etrial lss H Fv))
-    + dt * Psi_hv (K, G, Gn, tau) (mdiv (inc_hv (K, G, Gn, tau) dt (Etrial lss H Fv)) dt).
-Proof. dm Fv. dm H. cnum. kill_lss lss. reflexivity. Qed.
-
-Lemma D_hv_bridge lss K G Gn tau (Fv : M) dt (H : M) :
-  D_hv lss (K, G, Gn, tau) Fv dt H = dt * Psi_hv (K, G, Gn, tau) (mdiv (inc_hv (K, G, Gn, tau) dt (Etrial lss H Fv)) dt).
-Proof. dm Fv. dm H. cnum. kill_lss lss. reflexivity. Qed.
-
-Lemma state_new_hv_bridge lss expm K G Gn tau (Fv : M) dt (H : M) :
-  state_new_hv lss expm (K, G, Gn, tau) Fv dt H = mmul (expm (inc_hv (K, G, Gn, tau) dt (Etrial lss H Fv))) Fv.
-Proof. dm Fv. dm H. cnum. kill_lss lss. kill_lss expm. reflexivity. Qed.
+  (* along any sequence of positive steps at held deformation the reported non-equilibrium energy never increases *)
+  Fixpoint reported (Fv : M) (dts : list R) : list R :=
+    match dts with
+    | [] => []
+    | dt :: r => Wneq_reported_hv lss p Fv dt H :: reported (state_new_hv lss expm p Fv dt H) r
+    end.
+  Fixpoint nonincreasing (l : list R) : Prop :=
+    match l with
+    | x :: ((y :: _) as r) => y <= x /\ nonincreasing r
+    | _ => True
+    end.
+  Lemma relaxation_monotone dts : Forall (fun dt => 0 < dt) dts -> 0 <= Gn -> forall Fv, nonincreasing (reported Fv dts).
+  Proof.
+    intros Hp HG. induction Hp as [| dt r Hd Hr IH]; intros Fv; [exact I |]. cbn [reported].
+    destruct r as [| dt' r']; [exact I |]. cbn [reported nonincreasing]. inversion Hr as [| ? ? Hd' _]; subst. split.
+    - apply relaxation_step; assumption.
+    - exact (IH (state_new_hv lss expm p Fv dt H)).
+  Qed.
+End Single.
